@@ -5,6 +5,7 @@ import (
 	"crypto/sha256"
 	"fmt"
 	"os"
+	"path/filepath"
 	"strings"
 	"sync"
 	"testing"
@@ -90,7 +91,7 @@ func checkHist(h histCase) *vt.Fail {
 		id := cache.ActionID(cachekit.ID(o.ID))
 		content := cachekit.Content(o.C)
 		switch o.Op {
-		case "put", "putbytes", "putnoverify":
+		case "put", "putbytes", "putnoverify", "putfile":
 			var perr error
 			var out cache.OutputID
 			var size int64
@@ -98,6 +99,28 @@ func checkHist(h histCase) *vt.Fail {
 				switch o.Op {
 				case "put":
 					out, size, perr = c.Put(id, bytes.NewReader(content))
+				case "putfile":
+					// the data comes from a file of the caller's (on the cache's file system), which the caller goes on
+					// using: as soon as Put has returned it writes something else of the same length into it
+					src := filepath.Join(filepath.Dir(d), fmt.Sprintf("c05src-%d-%d", os.Getpid(), o.ID))
+					if werr := os.WriteFile(src, content, 0o666); werr != nil {
+						perr = c.PutBytes(id, content)
+						out, size = sha256.Sum256(content), int64(len(content))
+						break
+					}
+					f, oerr := os.Open(src)
+					if oerr != nil {
+						perr = oerr
+						break
+					}
+					out, size, perr = c.Put(id, f)
+					f.Close()
+					if w, werr := os.OpenFile(src, os.O_WRONLY, 0); werr == nil {
+						other := bytes.Repeat([]byte{'#'}, len(content))
+						w.Write(other)
+						w.Close()
+					}
+					os.Remove(src)
 				case "putnoverify":
 					out, size, perr = c.PutNoVerify(id, bytes.NewReader(content))
 				default:
@@ -315,6 +338,9 @@ func genHist(t *rapid.T) histCase {
 			o.Op = "put"
 		case 3:
 			o.Op = "putbytes"
+			if rapid.Bool().Draw(t, "fromfile") {
+				o.Op = "putfile"
+			}
 		case 4:
 			o.Op = "putnoverify"
 		case 5:
@@ -347,7 +373,7 @@ func metaHist(h histCase) vt.Meta {
 	kinds := map[string]bool{}
 	for _, o := range h.Ops {
 		switch o.Op {
-		case "put", "putbytes", "putnoverify":
+		case "put", "putbytes", "putnoverify", "putfile":
 			if damaged {
 				kinds["put-after-damage"] = true
 			}
